@@ -61,8 +61,8 @@ def episodes(prop, tier, seed):
     out["rand-release"] = (gen_atomic.random_episodes(seed + 1, 20 if q else 500, full=True), "release")
     out["tlc-fullwidth-release"] = (_full_width(tier), "release")
     # unscheduled threads (real races): instructions that no hook announces
-    out["free-release"] = (gen_atomic.free_episodes(seed + 2, 60 if q else 600, 600 if q else 3000, full=True), "release")
-    out["free"] = (gen_atomic.free_episodes(seed + 3, 30 if q else 300, 300 if q else 1500), "verif")
+    out["free-release"] = (gen_atomic.free_episodes(seed + 2, 60 if q else 300, 600 if q else 1500, full=True), "release")
+    out["free"] = (gen_atomic.free_episodes(seed + 3, 30 if q else 150, 300 if q else 800), "verif")
     return out
 
 
